@@ -169,7 +169,7 @@ pub fn state_from(v: &Value) -> v1::State {
 pub fn f64map_to(m: &HashMap<u64, f64>) -> Value {
     let mut es: Vec<_> = m.iter().collect();
     es.sort_by_key(|(k, _)| **k);
-    Value::Array(es.into_iter().map(|(k, x)| json!([k, from_f64(*x)])).collect())
+    Value::Array(es.into_iter().map(|(k, x)| json!([down(*k), from_f64(*x)])).collect())
 }
 pub fn state_to(s: &v1::State) -> Value {
     f64map_to(&s.entries)
@@ -244,7 +244,7 @@ pub fn bound_to(b: &v1::Bound) -> Value {
 }
 pub fn var_from(v: &Value) -> v1::DecisionVariable {
     let mut d = v1::DecisionVariable::default();
-    d.id = u(&v["id"]);
+    d.id = vid(&v["id"]);
     d.kind = kind_from(v["kind"].as_str().unwrap());
     d.bound = opt(&v["bound"]).map(bound_from);
     d.substituted_value = opt(&v["fixed"]).map(to_f64);
@@ -255,7 +255,7 @@ pub fn var_from(v: &Value) -> v1::DecisionVariable {
     d
 }
 pub fn var_to(d: &v1::DecisionVariable) -> Value {
-    json!({"id": d.id, "kind": kind_to(d.kind), "bound": optv(&d.bound, bound_to),
+    json!({"id": down(d.id), "kind": kind_to(d.kind), "bound": optv(&d.bound, bound_to),
         "fixed": optv(&d.substituted_value, |x| from_f64(*x)),
         "name": optstr_to(&d.name), "subs": d.subscripts, "params": strmap_to(&d.parameters),
         "desc": optstr_to(&d.description)})
@@ -293,28 +293,28 @@ pub fn deps_from(v: &Value) -> HashMap<u64, v1::Function> {
 pub fn deps_to(m: &HashMap<u64, v1::Function>) -> Value {
     let mut es: Vec<_> = m.iter().collect();
     es.sort_by_key(|(k, _)| **k);
-    Value::Array(es.into_iter().map(|(k, f)| json!([k, function_to(f)])).collect())
+    Value::Array(es.into_iter().map(|(k, f)| json!([down(*k), function_to(f)])).collect())
 }
 pub fn hints_from(v: &Value) -> v1::ConstraintHints {
     let mut h = v1::ConstraintHints::default();
     for o in arr(&v["onehot"]) {
         let mut x = v1::OneHot::default();
         x.constraint_id = u(&o["cid"]);
-        x.decision_variables = arr(&o["vars"]).iter().map(u).collect();
+        x.decision_variables = arr(&o["vars"]).iter().map(vid).collect();
         h.one_hot_constraints.push(x);
     }
     for o in arr(&v["sos1"]) {
         let mut x = v1::Sos1::default();
         x.binary_constraint_id = u(&o["bin"]);
         x.big_m_constraint_ids = arr(&o["bigm"]).iter().map(u).collect();
-        x.decision_variables = arr(&o["vars"]).iter().map(u).collect();
+        x.decision_variables = arr(&o["vars"]).iter().map(vid).collect();
         h.sos1_constraints.push(x);
     }
     h
 }
 pub fn hints_to(h: &v1::ConstraintHints) -> Value {
-    json!({"onehot": h.one_hot_constraints.iter().map(|o| json!({"cid": o.constraint_id, "vars": o.decision_variables})).collect::<Vec<_>>(),
-           "sos1": h.sos1_constraints.iter().map(|o| json!({"bin": o.binary_constraint_id, "bigm": o.big_m_constraint_ids, "vars": o.decision_variables})).collect::<Vec<_>>()})
+    json!({"onehot": h.one_hot_constraints.iter().map(|o| json!({"cid": o.constraint_id, "vars": vids_to(&o.decision_variables)})).collect::<Vec<_>>(),
+           "sos1": h.sos1_constraints.iter().map(|o| json!({"bin": o.binary_constraint_id, "bigm": o.big_m_constraint_ids, "vars": vids_to(&o.decision_variables)})).collect::<Vec<_>>()})
 }
 fn desc_from(v: &Value) -> v1::instance::Description {
     let mut d = v1::instance::Description::default();
@@ -401,7 +401,7 @@ pub fn pinstance_to(i: &v1::ParametricInstance) -> Value {
 // ---------- solutions ----------
 pub fn evaluated_to(c: &v1::EvaluatedConstraint) -> Value {
     json!({"id": c.id, "eq": eq_to(c.equality), "value": from_f64(c.evaluated_value),
-        "used": c.used_decision_variable_ids, "name": optstr_to(&c.name), "subs": c.subscripts,
+        "used": vids_to(&c.used_decision_variable_ids), "name": optstr_to(&c.name), "subs": c.subscripts,
         "params": strmap_to(&c.parameters), "desc": optstr_to(&c.description),
         "removed_reason": optstr_to(&c.removed_reason), "rparams": strmap_to(&c.removed_reason_parameters),
         "dual": optv(&c.dual_variable, |x| from_f64(*x))})
